@@ -5,15 +5,21 @@ pub mod c04;
 pub mod c17;
 pub mod c35;
 pub mod perp;
+pub mod pure;
 pub mod smoke;
 
 pub const REGISTRY: &[(&str, fn(&mut Ctx))] = &[
     ("C01", c01::run),
+    ("C02", pure::run_c02),
+    ("C03", pure::run_c03),
     ("C04", c04::run_c04),
     ("C05", c04::run_c05),
     ("C07", perp::run_c07),
     ("C09", perp::run_c09),
+    ("C11", pure::run_c11),
+    ("C12", perp::run_c12),
     ("C13", perp::run_c13),
+    ("C14", pure::run_c14),
     ("C17", c17::run),
     ("C35", c35::run),
     ("SMOKE", smoke::run),
